@@ -418,3 +418,13 @@ B('C11.constant-in-place-of-none', ['C11', 'C07', 'C01'], [(P + 'ssh/key.py', " 
   mention=['C11.R8', 'valid_after'])
 N('benign.validity-helper', [(P + 'ssh/key.py', "        composer.compose_timestamp(self.valid_after)\n        composer.compose_timestamp(self.valid_before)\n",
   "        for moment in (self.valid_after, self.valid_before):\n            composer.compose_timestamp(moment)\n")])
+# a mutable container in the class body as the fallback of an attribute the initialiser binds only on some paths
+_LT_INIT = ("    def __init__(self, primary_subtag, subsequent_subtags=()):\n        self._primary_subtag = None\n        self._subsequent_subtags = None\n\n"
+            "        self.primary_subtag = primary_subtag\n        self.subsequent_subtags = subsequent_subtags\n")
+B('C13.class-level-list-fallback', ['C13'], [(P + 'common/classes.py', _LT_INIT,
+  "    _primary_subtag = None\n    _subsequent_subtags = []\n\n    def __init__(self, primary_subtag, subsequent_subtags=None):\n"
+  "        self.primary_subtag = primary_subtag\n        if subsequent_subtags is not None:\n            self.subsequent_subtags = subsequent_subtags\n")],
+  mention=['C13.R6', '_subsequent_subtags'])
+N('benign.class-level-list-always-rebound', [(P + 'common/classes.py', _LT_INIT,
+  "    _primary_subtag = None\n    _subsequent_subtags = []\n\n    def __init__(self, primary_subtag, subsequent_subtags=()):\n"
+  "        self.primary_subtag = primary_subtag\n        self.subsequent_subtags = subsequent_subtags\n")])
